@@ -226,6 +226,44 @@ theorem c20_workers_return_to_idle (w q : Nat) (s : Sys) (hr : Reachable w q s)
     · obtain ⟨a, ha, hen⟩ := c20_write_mutex_never_wedges w q s hr i u hu h1 h2
       rw [hmax a ha] at hen; cases hen
 
+/-- Stop's drain waits for the barrier, whatever the high watermark: the model has no timeout on the
+barrier wait (the watermark only makes the code log a warning) — the ONLY way `Serve` leaves the wait
+is the barrier firing, or, after a connection fault, the drain step failing. No builder option
+(watermark, queue length, worker count, queue group, event handlers) is a parameter of `step` other
+than `w` and `q`, for which all theorems are quantified. -/
+theorem c20_only_barrier_ends_wait (s s' : Sys) (a : Action) (hs : step s a = some s')
+    (hw : s.serve = .barrierWait) (hl : s'.serve ≠ .barrierWait) :
+    (a = .barrierFires ∧ s.pending = [] ∧ s.cb = .idle) ∨ (a = .drainFail ∧ s.faulty = true) := by
+  cases a <;> simp only [step] at hs <;> (repeat' split at hs) <;> cases hs <;> simp_all
+
+/-- State form: when `Stop` has its result and no fault has happened (Stop returns nil), nothing is
+pending in the subscription, in flight at the broker, or with the handler, however long that took:
+every request the broker had accepted is in the work queue, with a worker, or answered. -/
+theorem c20_drain_waits_for_barrier (w q : Nat) (s : Sys) (hr : Reachable w q s)
+    (hst : s.stop = .gotResult ∨ s.stop = .returned) (hnf : s.faulty = false) :
+    s.pending = [] ∧ s.inflight = [] ∧ s.cb = .idle ∧ s.dropped = [] ∧
+    ∀ m ∈ s.arrived, m ∈ s.workC ∨ m ∈ busyList s.workers ∨ m ∈ s.replied := by
+  have hi := reachable_sinv hr
+  have h4 : 4 < rank s.serve := by
+    by_cases h0 : rank s.serve = 0
+    · have := hi.st0 h0; rcases this with h | h <;> rcases hst with h' | h' <;> rw [h] at h' <;> cases h'
+    · by_cases h5 : rank s.serve < 5
+      · have := hi.st1 (by omega) h5; rcases hst with h' | h' <;> rw [this] at h' <;> cases h'
+      · omega
+  have hp := hi.pend hnf (by omega)
+  have hin := hi.infl hnf (by omega)
+  have hd := hi.drp hnf
+  refine ⟨hp.1, hin, hp.2, hd, ?_⟩
+  intro m hm
+  have h1 := hi.cnt m
+  have h2 : 0 < s.arrived.count m := List.count_pos_iff.mpr hm
+  simp only [loc, held, hp.1, hp.2, hin, hd, cbMsgs, List.count_append, List.count_nil] at h1
+  by_cases ha : 0 < s.workC.count m
+  · exact Or.inl (List.count_pos_iff.mp ha)
+  · by_cases hb : 0 < (busyList s.workers).count m
+    · exact Or.inr (Or.inl (List.count_pos_iff.mp hb))
+    · exact Or.inr (Or.inr (List.count_pos_iff.mp (by omega)))
+
 /-- Termination measure: `mu` strictly decreases with EVERY action other than an arrival (so in
 particular with every action after `drainStart`, where arrivals are disabled). -/
 theorem c20_measure_decreases (s s' : Sys) (a : Action) (hs : step s a = some s') (ha : ∀ m, a ≠ .arrive m) :
